@@ -223,7 +223,7 @@ def c05_require(agg):
     st = agg["stats"]
     need = []
     for k, n in (("zero_length_regions", 5), ("non_page_multiple_regions", 100), ("path_exec-child", 20), ("path_forked-child", 20), ("reread_after_drop", 50),
-                 ("child_reread_after_carrier_dropped", 10)):
+                 ("child_reread_after_carrier_dropped", 10), ("forked_creator_rounds", 3)):
         if st.get(k, 0) < n:
             need.append("%s < %d" % (k, n))
     return need
